@@ -233,3 +233,7 @@ Definition buffer_sizes : list (string * N) :=
 
 Definition globals_written_after_init : list (string * bool) :=
   [("_opcode_index", false); ("_tokenType_index", false); ("_typecode_index", false); ("blockType", false); ("keywords", false); ("oneRuneTokens", false); ("rules", false); ("twoRuneTokens", false)].
+
+(* assignments through a Prog in machine.go, oplogic.go, disasm.go and Execute/printXStats of api.go: none
+   ("executing a Prog does not alter it", C16; "one Prog may be executed concurrently", C12) *)
+Definition prog_writes_in_execution : list (string * string) := [].
